@@ -21,6 +21,9 @@ static PEAK: AtomicUsize = AtomicUsize::new(0);
 static LIMIT: AtomicUsize = AtomicUsize::new(usize::MAX);
 static BASE: AtomicUsize = AtomicUsize::new(0);
 static TRIP_FD: AtomicI32 = AtomicI32::new(-1);
+/// When >= 0: a trip writes one text line (`ALLOC-TRIP request=<n> extra=<n>`) to this
+/// descriptor instead of the binary frame (used by the libFuzzer targets, which have no reply pipe).
+static TRIP_TEXT_FD: AtomicI32 = AtomicI32::new(-1);
 
 /// Status byte of the frame written when the guard trips.
 pub const STATUS_ALLOC_TRIP: u8 = 4;
@@ -42,6 +45,39 @@ pub fn reset_peak() {
 /// File descriptor that receives the trip frame (worker reply pipe).
 pub fn set_trip_fd(fd: i32) {
     TRIP_FD.store(fd, Relaxed);
+}
+
+/// File descriptor that receives a one-line text notice when the guard trips (fuzz targets: 2).
+pub fn set_trip_text_fd(fd: i32) {
+    TRIP_TEXT_FD.store(fd, Relaxed);
+}
+
+/// Decimal rendering without heap use.
+fn put_dec(buf: &mut [u8], pos: &mut usize, mut v: u64) {
+    let mut tmp = [0u8; 20];
+    let mut n = 0;
+    loop {
+        tmp[n] = b'0' + (v % 10) as u8;
+        n += 1;
+        v /= 10;
+        if v == 0 {
+            break;
+        }
+    }
+    while n > 0 && *pos < buf.len() {
+        n -= 1;
+        buf[*pos] = tmp[n];
+        *pos += 1;
+    }
+}
+
+fn put_str(buf: &mut [u8], pos: &mut usize, s: &[u8]) {
+    for b in s {
+        if *pos < buf.len() {
+            buf[*pos] = *b;
+            *pos += 1;
+        }
+    }
 }
 
 /// Arm the guard: at most `limit_extra` bytes above the current live heap.
@@ -76,6 +112,21 @@ fn trip(request: usize, would_be: usize) -> ! {
         use std::os::fd::FromRawFd;
         let f = std::mem::ManuallyDrop::new(unsafe { std::fs::File::from_raw_fd(fd) });
         let _ = (&*f).write_all(&buf);
+    }
+    let tfd = TRIP_TEXT_FD.load(Relaxed);
+    if tfd >= 0 {
+        let extra = would_be.saturating_sub(BASE.load(Relaxed)) as u64;
+        let mut buf = [0u8; 96];
+        let mut pos = 0;
+        put_str(&mut buf, &mut pos, b"ALLOC-TRIP request=");
+        put_dec(&mut buf, &mut pos, request as u64);
+        put_str(&mut buf, &mut pos, b" extra=");
+        put_dec(&mut buf, &mut pos, extra);
+        put_str(&mut buf, &mut pos, b"\n");
+        use std::io::Write;
+        use std::os::fd::FromRawFd;
+        let f = std::mem::ManuallyDrop::new(unsafe { std::fs::File::from_raw_fd(tfd) });
+        let _ = (&*f).write_all(&buf[..pos]);
     }
     std::process::abort()
 }
